@@ -26,7 +26,7 @@ META = {
     "assumptions": [],
 }
 
-TUS = ["src/linear/function.cpp", "src/linear/accumulator.cpp", "src/gboost/function.cpp", "src/gboost/accumulator.cpp", "src/dataset/iterator.cpp",
+TUS = ["src/linear/function.cpp", "src/linear/util.cpp", "src/linear/accumulator.cpp", "src/gboost/function.cpp", "src/gboost/accumulator.cpp", "src/dataset/iterator.cpp",
        "witness/pool_inst.cpp"]
 
 OBJECTIVES = [("nano::linear::function_t", "src/linear/function.cpp", "nano::linear::accumulator_t"),
@@ -243,9 +243,9 @@ def rule_coverage(F, R):
             R.check(okd, "R-C09-2", "%s::operator/= divisor" % acc_cls.split("::")[-2], f.loc(), "each member is divided by the sample count", "operator/= divides by something else")
 
 
-def rule_regularisers(F, R):
+def rule_regularisers(F, R, rule="R-C09-4"):
     f = F.one("nano::linear::function_t::do_vgrad", "src/linear/function.cpp")
-    n = 3
+    n = 6                       # the weights as a 2 x 3 matrix (targets x inputs): size() = 6, rows() = 2, cols() = 3
     W = [sym("w%d" % i) for i in range(n)]
     terms = {}
     for x in f.nodes():
@@ -269,16 +269,17 @@ def rule_regularisers(F, R):
             if v["k"] == "var" and v["n"] == "W":
                 it.env[v["d"]] = list(W)
         it.members["m_l1reg"], it.members["m_l2reg"] = sym("l1"), sym("l2")
+        it.matrix_shape = (2, 3)
         try:
             val = it.ev(a[1])
         except OutOfFragment as e:
-            R.incomplete("R-C09-4", "regulariser %s" % guard, f.loc(x), str(e))
+            R.incomplete(rule, "regulariser %s" % guard, f.loc(x), str(e))
             continue
         terms.setdefault(guard, {})[tgt] = (val, x)
     cnt = 0
     for guard, d in sorted(terms.items()):
         if "fx" not in d or "gW" not in d:
-            R.bad("R-C09-4", "regulariser " + guard, f.loc(), "the regulariser under `%s` contributes to %s only (value and gradient no longer match)" % (guard, sorted(d)))
+            R.bad(rule, "regulariser " + guard, f.loc(), "the regulariser under `%s` contributes to %s only (value and gradient no longer match)" % (guard, sorted(d)))
             continue
         cnt += 1
         V, G = d["fx"][0], d["gW"][0]
@@ -289,18 +290,18 @@ def rule_regularisers(F, R):
             if not z:
                 ok, wit = False, "d value/d w%d = %s but the gradient adds %s %s" % (j, sp.diff(V, W[j]), G[j] if isinstance(G, list) else G, w)
                 break
-        R.check(ok, "R-C09-4", "regulariser " + guard, f.loc(d["gW"][1]), "gradient term is the derivative of the value term %s" % V, "regulariser gradient mismatch: " + wit)
+        R.check(ok, rule, "regulariser " + guard, f.loc(d["gW"][1]), "gradient term is the derivative of the value term %s" % V, "regulariser gradient mismatch: " + wit)
         lam = sym("l1") if "l1" in guard else sym("l2")
         want = lam * sum(sp.Abs(w) for w in W) / n if "l1" in guard else lam / 2 * sum(w ** 2 for w in W) / n
         z, w = kalg.is_zero(sp.simplify(V - want), R.seed)
-        R.check(bool(z), "R-C09-4", "regulariser value " + guard, f.loc(d["fx"][1]), "value term = %s" % want, "regulariser value is %s, the definition is %s" % (V, want))
-    R.floor("R-C09-4", cnt, 2, "regulariser terms")
+        R.check(bool(z), rule, "regulariser value " + guard, f.loc(d["fx"][1]), "value term = %s" % want, "regulariser value is %s, the definition is %s" % (V, want))
+    R.floor(rule, cnt, 2, "regulariser terms")
     # gradient objective of gboost: mean over samples
     g = F.one("nano::gboost::grads_function_t::do_vgrad", "src/gboost/function.cpp")
     asg = [x for x in g.nodes() if assignment(x) and kalg.designator(assignment(x)[0]) == "gx"]
     rets = [x for x in g.nodes() if x["k"] == "return"]
     okg = len(asg) == 1 and pp(assignment(asg[0])[1]) == "(grads.vector() / cast<double>(samples.size()))" and pp(rets[0]["c"][0]) == "m_values.vector().mean()"
-    R.check(okg, "R-C09-4", "gboost gradient objective", g.loc(), "value = mean loss, gradient = per-sample gradients / samples", "gradient objective changed")
+    R.check(okg, rule, "gboost gradient objective", g.loc(), "value = mean loss, gradient = per-sample gradients / samples", "gradient objective changed")
 
 
 def rule_iterator_chunks(F, R):
@@ -582,6 +583,131 @@ def rule_index_spaces(F, R):
     R.floor("R-C09-7/output", nout, 1, "assignments of the scale objective's per-sample output")
 
 
+def rule_linear_chain(F, R, rule="R-C09-8"):
+    """the data term of the linear objective in its 1 x 1 instance: linear::predict computes o = w * x + b, and the accumulated gradient terms are
+    g * do/db (= g) for the bias and g * do/dw (= g * x) for the weights, g being the loss gradient w.r.t. the output written by loss.vgrad"""
+    ps = [f for f in F.functions.values() if f.qn == "nano::linear::predict" and f.body is not None and len(f.params) == 4 and "marray" in (f.params[3].get("t") or "")]
+    f = F.one("nano::linear::function_t::do_vgrad", "src/linear/function.cpp")
+    if not ps:
+        raise AnalysisBroken("nano::linear::predict(inputs, weights, bias, outputs map) not found")
+    p = ps[0]
+    try:
+        ex = kalg.SymExec(p, scalar=True)
+        ex.run([s_ for s_ in p.body.get("c", ())])
+    except OutOfFragment as e:
+        R.incomplete(rule, "linear predict", p.loc(), str(e))
+        return
+    outs = [v for k, v in ex.state.items() if k.startswith(p.params[3]["n"])]
+    x, w, b = (sym(p.params[i]["n"]) for i in range(3))
+    ok = len(outs) == 1 and kalg.is_zero(outs[0] - (w * x + b), R.seed)[0]
+    R.check(bool(ok), rule, "linear predict", p.loc(), "outputs = inputs * weights' + bias", "linear::predict computes %s" % (outs[0] if outs else "nothing"))
+    n = 0
+    for lam, g in F.lambdas_in(f):
+        vg = [c for c in g.calls(lambda c: callee(c) == "nano::loss_t::vgrad")]
+        pr = [c for c in g.calls(lambda c: callee(c) == "nano::linear::predict")]
+        if len(vg) != 1 or len(pr) != 1:
+            continue
+        n += 1
+        same_out = pp(args(vg[0])[1]) == pp(args(pr[0])[3])
+        gbuf_member = pp(args(vg[0])[2]).split(".")[-1]
+        xname = pp(args(pr[0])[0])
+        # where the gradient sums are accumulated: the parallel body itself, or an accumulator method it calls (inputs bound to its parameter)
+        sites = [(g, xname)]
+        for c in g.calls(lambda c: c.get("ck") == "mem" and callee(c).startswith("nano::linear::accumulator_t::")):
+            for h in F.functions.values():
+                if h.qn == callee(c) and h.body is not None and len(h.params) == len(args(c)):
+                    xn = next((h.params[j]["n"] for j, a_ in enumerate(args(c)) if pp(a_) == xname), None)
+                    if xn:
+                        sites.append((h, xn))
+        found = None
+        for h, xn in sites:
+            adds = [y for y in h.nodes() if assignment(y) and assignment(y)[2] == "+=" and any(m_ in pp(assignment(y)[0]) for m_ in ("m_gb1", "m_gW1"))]
+            if len(adds) < 2:
+                continue
+            blk = h.parent_of(adds[0])
+            while blk is not None and blk["k"] != "block":
+                blk = h.parent_of(blk)
+            atoms = {}
+            for v in walk(blk):
+                if v["k"] == "call" and re.match(r"(\w+\.)?%s\.reshape\(" % re.escape(gbuf_member), pp(v)):
+                    atoms[pp(v)] = "g"
+                if v["k"] == "mem" and v.get("n") == gbuf_member:
+                    atoms[pp(v)] = "g"
+            try:
+                ex = kalg.SymExec(h, scalar=True, atoms=atoms)
+                ex.run([s_ for s_ in blk.get("c", ()) if not any(z is vg[0] for z in walk(s_))])
+            except OutOfFragment as e:
+                found = ("oof", str(e), h)
+                continue
+            inc = {}
+            for k, v in ex.state.items():
+                for m_ in ("m_gb1", "m_gW1"):
+                    if k.split(".")[-1] == m_:
+                        inc[m_] = sp.expand(v - sym(k.replace(".", "_")))
+            found = ("ok", inc, h, xn)
+            break
+        if found is None:
+            R.incomplete(rule, "linear data term", g.loc(), "the statements accumulating m_gb1 / m_gW1 were not found in the parallel body or the accumulator methods it calls")
+            continue
+        if found[0] == "oof":
+            R.incomplete(rule, "linear data term", found[2].loc(), found[1])
+            continue
+        inc, h, xn = found[1], found[2], found[3]
+        G, X = sym("g"), sym(xn)
+        okb = "m_gb1" in inc and kalg.is_zero(inc["m_gb1"] - G, R.seed)[0]
+        okw = "m_gW1" in inc and kalg.is_zero(inc["m_gW1"] - G * X, R.seed)[0]
+        R.check(bool(same_out and okb and okw), rule, "linear data term", h.loc(), "per range: bias gradient += sum_i g_i, weight gradient += sum_i g_i x_i' with g = d loss / d output of the predicted outputs",
+                "the accumulated gradient is not the chain rule of loss(w x + b): bias += %s, weights += %s%s" % (inc.get("m_gb1"), inc.get("m_gW1"), "" if same_out else "; loss.vgrad is not evaluated at the predicted outputs"))
+    R.floor(rule, n, 1, "linear objective parallel bodies")
+
+
+def rule_sample_axis(F, R, rule="R-C09-9"):
+    """the rank-4 buffers of the objectives (targets, outputs, loss values / gradients) are sample-major: (samples, target dims...). A 2-d view of
+    one of them keeps the sample axis first - `reshape(<number of samples>, ...)`; `reshape(<target size>, <samples>)` has the right extents but
+    reinterprets the memory (it is not a transpose), mixing the components of different samples."""
+    n = 0
+    for f in F.functions.values():
+        if f.body is None or not f.relfile.startswith(("src/linear/", "src/gboost/function.cpp", "src/gboost/accumulator.cpp", "include/nano/linear/", "include/nano/gboost/")):
+            continue
+        for c in f.calls(lambda c: c.get("ck") == "mem" and callee(c).split("::")[-1].split("<")[0] == "reshape" and "tensor_t" in callee(c) and len(args(c)) >= 2):
+            ot = (skip(obj(c)).get("t") or "")
+            if not re.search(r", 4>", ot):
+                continue
+            n += 1
+
+            def klass(e, depth=0):
+                e = skip(e)
+                while e["k"] == "cast" and e.get("c"):
+                    e = skip(e["c"][0])
+                t = pp(e)
+                if re.fullmatch(r"\w+\.size\(\)", t) and "tensor_range_t" in (skip(obj(e)).get("t") or ""):
+                    return "samples"
+                if e["k"] == "call" and callee(e).split("::")[-1].startswith("size<") and e.get("targs") == ["0"]:
+                    return "samples"
+                if re.fullmatch(r"[\w.()]+\.size<0>\(\)", t):
+                    return "samples"
+                if re.fullmatch(r"(\w+\.)?samples(\(\))?\.size\(\)", t):
+                    return "samples"
+                if e["k"] == "ref" and depth < 3:
+                    v, _ = find_var(f, e.get("d"))
+                    if v is not None and v.get("c"):
+                        return klass(v["c"][0], depth + 1)
+                if e["k"] in ("int",) or t in ("(-1)", "-1"):
+                    return "inferred"
+                if re.search(r"tsize|m_gb1|bias|\.rows\(\)|target", t):
+                    return "targets"
+                return None
+            k0 = klass(args(c)[0])
+            inst = "%s reshape@%d" % (f.name if not f.is_lambda else "lambda", c["l"])
+            if k0 is None:
+                R.incomplete(rule, inst, f.loc(c), "cannot tell whether `%s` is the number of samples" % pp(args(c)[0])[:50])
+                continue
+            R.check(k0 == "samples", rule, inst, f.loc(c), "the 2-d view keeps the sample axis first",
+                    "`%s` views a sample-major buffer with `%s` (%s) as its first extent: the memory is laid out (samples, target dims), so this is a reinterpretation, not a "
+                    "transpose - components of different samples and targets are mixed in whatever is summed over it" % (pp(c)[:70], pp(args(c)[0])[:40], "the target size" if k0 == "targets" else "an inferred extent"))
+    R.floor(rule, n, 4, "2-d views of sample-major buffers")
+
+
 def run(ctx):
     R = ctx.report
     F = ctx.facts(TUS)
@@ -591,6 +717,8 @@ def run(ctx):
     rule_iterator_chunks(F, R)
     rule_cache(F, R)
     rule_index_spaces(F, R)
+    rule_linear_chain(F, R)
+    rule_sample_axis(F, R)
     from . import c17
     # chunk tiling of pool_t::map itself (shared with C17)
     R.note("chunk tiling of pool_t::map is decided by R-C17-6 (check C17)")
